@@ -13,6 +13,11 @@ import (
 	"github.com/goreleaser/nfpm/v2/internal/zzverif/models"
 )
 
+// verifNameVersion: the upstream version of the settings built by verifNameInfoO:
+// a semantic version, or a version that is used as written (not semver) and
+// starts with a 'v' / holds more than three parts.
+var verifNameVersion = "1.2.3"
+
 var verifArches = []string{"amd64", "arm64", "386", "arm7", "arm6", "arm5"}
 
 func verifNameInfo(name, pre, meta, rel, epoch, arch string) *nfpm.Info {
@@ -20,7 +25,7 @@ func verifNameInfo(name, pre, meta, rel, epoch, arch string) *nfpm.Info {
 }
 
 func verifNameInfoO(name, pre, meta, rel, epoch, arch, override string) *nfpm.Info {
-	info := &nfpm.Info{Name: name, Arch: arch, Platform: "linux", Version: "1.2.3", Prerelease: pre, VersionMetadata: meta,
+	info := &nfpm.Info{Name: name, Arch: arch, Platform: "linux", Version: verifNameVersion, Prerelease: pre, VersionMetadata: meta,
 		Release: rel, Epoch: epoch, Description: "d", Maintainer: "m <m@x>", MTime: time.Unix(1700000000, 0).UTC()}
 	info.Umask = 0o022
 	info.RPM.BuildHost = "host"
@@ -63,6 +68,7 @@ func verifOpt(name string, n int, class string) string {
 // built from the same settings, ends in the conventional extension, and asking
 // for it does not change the package built afterwards.
 func verifFileName(format string) {
+	verifNameVersion = []string{"1.2.3", "v1.2.3.4", "vista"}[v.NondetChoice("version", 3)]
 	name := "n" + v.NondetStringN("name", 1)
 	v.Assume(v.AllIn(name[1:], "a-z"))
 	pre := verifOpt("pre", 2, "a-z")
